@@ -45,7 +45,9 @@ Decos  == {"plain", "asynq", "pure", "proxy_task", "proxy_const", "asynq_sync", 
            "aretry", "alru", "acpi"} \cup Mads
 DefKs  == {"function", "method", "classmethod", "staticmethod"}
 Bodies == {"plain", "gen", "batch"}
-Convs  == {"sync", "asynq", "yield", "async_call", "get_async_fn", "get_async_or_sync_fn"}
+Convs  == {"sync", "asynq", "yield", "async_call", "get_async_fn", "get_async_or_sync_fn", "get_async_fn_wrap"}
+\* get_async_fn_wrap = get_async_fn(obj, wrap_if_none=True)(...): exists for every callable (a synchronous one is wrapped into a
+\* function returning a completed future)
 AllPats == {"pos", "kw", "mixed", "default", "kwonly"}
 ArgPats == CASE Pats = "few" -> {"pos", "kwonly"} [] Pats = "one" -> {"pos"} [] OTHER -> AllPats
 
@@ -71,7 +73,7 @@ IsPure(d)    == d = "pure"                       \* the direct call returns a fu
 HasAsynq(d, w) == w = 0 /\ d \notin {"pure", "plain"}      \* there is an .asynq attribute
 HasSyncFn(d) == d \in {"asynq_sync", "proxy_sync"}
 ConvsOf(d, w) == CASE d = "pure" -> Convs \ {"asynq"}
-                   [] d = "plain" \/ w > 0 -> {"sync", "async_call", "get_async_or_sync_fn"}
+                   [] d = "plain" \/ w > 0 -> {"sync", "async_call", "get_async_or_sync_fn", "get_async_fn_wrap"}
                    [] OTHER -> Convs
 
 VARIABLES deco, defk, body, ending, fail, obj, hist
@@ -105,7 +107,7 @@ Extra(d, b, ran, a) == IF ran = "sync" THEN 0
                        ELSE CASE b = "plain" -> 0 [] b = "gen" -> a + 100 [] b = "batch" -> a + 200
 ReturnsFuture(d, w, c) == CASE c = "sync" -> IsPure(d)
                          [] c = "get_async_or_sync_fn" -> IF w = 0 THEN d # "plain" ELSE IsPure(d)
-                         [] c \in {"asynq", "get_async_fn"} -> TRUE
+                         [] c \in {"asynq", "get_async_fn", "get_async_fn_wrap"} -> TRUE
                          [] OTHER -> FALSE          \* the value is delivered to the yielding task
 (* Stated has no parameter for the place the call is made from or for the way the body hands back its value:
    the prescription is the same from the top level and from inside a task, for `return x` and `result(x)`.
